@@ -448,6 +448,7 @@ def t_histories(mode, depth):
 	import gambit.sigs.calc as calc
 	from gambit.sigs.calc import calc_file_signature, calc_file_signatures
 	from gambit.sigs.base import SignatureList
+	fixtures.reset_gambit_globals()
 	sh = Shard()
 	ks_list = [fixtures.kspec(11, 'ATGAC'), fixtures.kspec(12, 'ATGAC')]      # dense accumulator / set accumulator
 	with fixtures.workdir('c13h') as d:
@@ -472,6 +473,7 @@ def t_histories(mode, depth):
 				elif mode.startswith('reused-process-executor'):
 					ex = ProcessPoolExecutor(max_workers=1)
 				kw = dict(executor=ex) if ex is not None else dict(concurrency=None if mode == 'sequential' else mode)
+				fixtures.reset_gambit_globals()      # every history starts from the state of a freshly imported library
 				try:
 					for step, ev in enumerate(hist):
 						files = filesA if ev == 'A' else filesB if ev == 'B' else faulty[ev]
